@@ -1,2 +1,878 @@
 // Package c31: the query concurrency limit is never exceeded and never leaks.
+//
+// Engine part: a real engine.QueryRunner with WithMaxConcurrent(sem) where the harness owns the
+// semaphore channel. Every query of a burst targets its own interface whose bytes_rcvd column file
+// is a FIFO: an admitted (low-memory) query parks in open/read of that FIFO until the monitor, which
+// detects the reader with a non-blocking O_WRONLY open, feeds the real column bytes. A query that is
+// parked and not yet fed is provably inside Run() behind the semaphore, which gives race-free
+// invariants:  |parked & !fed| <= L,  len(sem) >= |parked & !fed|,  and at every quiescent state
+// (all other queries returned) len(sem) == |parked & !fed|.
+// Distributed part: the same protocol for distributed.QueryRunner with a harness Querier that parks
+// the query inside Query() until released.
 package c31
+
+import (
+	"context"
+	"errors"
+	"fmt"
+	"io/fs"
+	"math/rand"
+	"os"
+	"path/filepath"
+	"runtime/debug"
+	"sort"
+	"strings"
+	"sync"
+	"syscall"
+	"time"
+
+	gqd "github.com/els0r/goProbe/v4/cmd/global-query/pkg/distributed"
+	"github.com/els0r/goProbe/v4/pkg/distributed/hosts"
+	"github.com/els0r/goProbe/v4/pkg/goDB/encoder/encoders"
+	"github.com/els0r/goProbe/v4/pkg/goDB/engine"
+	"github.com/els0r/goProbe/v4/pkg/query"
+	"github.com/els0r/goProbe/v4/pkg/results"
+	"github.com/els0r/goProbe/v4/pkg/types"
+	"github.com/els0r/goProbe/v4/plugins/resolver/stringresolver"
+	"verifharness/eng"
+	"verifharness/fw"
+	"verifharness/gen"
+)
+
+func init() {
+	fw.Register(&fw.Check{
+		ID:    "C31",
+		Level: "exploration",
+		Rule: "case = one limit L in {1,2,3,5} and a series of 2-4 bursts on ONE shared runner and semaphore, for the engine runner (FIFO-parked low-memory queries) and the distributed runner (queries parked in a harness Querier), run concurrently. " +
+			"A burst has B in [L+1,4L] (sometimes <= L) concurrent queries of kinds: parkable, invalid arguments (fails before admission), failing after admission (unparsable year directory / unknown interface; `any` hosts with a non-enumerating querier / failing resolver), cancelled while parked; " +
+			"mode hold (nothing is fed until every query is parked or has returned: forces rejections) or flow (parked queries are fed/cancelled at seeded points while others still wait); acquisition timeout 1 s (default) or a keepalive interval. " +
+			"Non-trivial iff the burst has more parkable queries than L; distinct by (runner, L, burst composition, mode).",
+		Assumptions: []string{
+			"the semaphore is the channel handed to WithMaxConcurrent (as the servers do); the harness reads len() of it",
+			"a query parked at its FIFO / inside the harness Querier and not yet fed is executing; executing queries are observed at those points only",
+			"no wall-clock verdicts: the monitor polls states; 'a free slot admits a waiting query' is only asserted when no query can hold a slot transiently (pure bursts) and is re-confirmed by a probe query",
+			"one shared QueryRunner per burst series as in the API servers; queries of a burst use identical query types (concurrent writes to the runner's per-query fields are outside this property); not run under -race",
+		},
+		NumCases: func(tier, variant string) int {
+			if tier == "thorough" {
+				return 500
+			}
+			return 32
+		},
+		Run:         run,
+		CaseTimeout: 180 * time.Second,
+		Require: []string{"bursts_engine", "bursts_distributed", "bursts_nontrivial", "rejected_too_many_requests", "parked_observed", "fed_results_correct",
+			"failed_after_admission", "failed_before_admission", "cancelled_while_parked", "bursts_hold", "bursts_flow", "quiescent_checks", "limit_reached"},
+	})
+}
+
+// ---------------------------------------------------------------------------------------------
+
+type qkind int
+
+const (
+	kPark qkind = iota
+	kInvalid
+	kFailAfterA  // engine: unparsable year directory; distributed: host selector `any` with a Querier that cannot enumerate hosts
+	kFailAfterB  // engine: unknown interface; distributed: resolver error
+	kCancel      // parkable, cancelled while parked
+	kCancelEarly // cancelled right after launch (while waiting for a slot or shortly after admission); may or may not park
+)
+
+func (k qkind) String() string {
+	return [...]string{"park", "invalid", "fail_after_a", "fail_after_b", "cancel", "cancel_early"}[k]
+}
+
+type burstSpec struct {
+	Kinds     []qkind
+	Hold      bool
+	KeepAlive time.Duration // 0 = default acquisition timeout (1 s)
+	FeedProb  float64       // flow mode: probability per monitor round to feed a parked query
+	Late      []int         // flow mode: per query, number of parked-query observations after which it is launched (0 = at once)
+}
+
+func (b burstSpec) parkable() int {
+	n := 0
+	for _, k := range b.Kinds {
+		if k == kPark || k == kCancel {
+			n++
+		}
+	}
+	return n
+}
+
+func (b burstSpec) pure() bool {
+	for _, k := range b.Kinds {
+		if k == kFailAfterA || k == kFailAfterB || k == kCancelEarly {
+			return false
+		}
+	}
+	return true
+}
+
+func (b burstSpec) describe() string {
+	cnt := map[string]int{}
+	for _, k := range b.Kinds {
+		cnt[k.String()]++
+	}
+	var ks []string
+	for k, n := range cnt {
+		ks = append(ks, fmt.Sprintf("%s=%d", k, n))
+	}
+	sort.Strings(ks)
+	mode := "flow"
+	if b.Hold {
+		mode = "hold"
+	}
+	for _, l := range b.Late {
+		if l > 0 {
+			mode = "flow+late_arrivals"
+			break
+		}
+	}
+	return fmt.Sprintf("B=%d{%s} mode=%s keepalive=%s", len(b.Kinds), strings.Join(ks, " "), mode, b.KeepAlive)
+}
+
+func genBurst(r *rand.Rand, L int, first bool) burstSpec {
+	var b burstSpec
+	B := L + 1 + r.Intn(3*L)
+	if r.Intn(6) == 0 {
+		B = 1 + r.Intn(L)
+	}
+	mixed := r.Intn(2) == 0
+	for i := 0; i < B; i++ {
+		k := kPark
+		if mixed {
+			switch x := r.Intn(10); {
+			case x < 5:
+				k = kPark
+			case x < 6:
+				k = kInvalid
+			case x < 7:
+				k = kFailAfterA
+			case x < 8:
+				k = kFailAfterB
+			case x < 9:
+				k = kCancelEarly
+			default:
+				k = kCancel
+			}
+		} else if r.Intn(8) == 0 {
+			k = kInvalid
+		} else if r.Intn(6) == 0 {
+			k = kCancel
+		}
+		b.Kinds = append(b.Kinds, k)
+	}
+	b.Hold = r.Intn(2) == 0
+	if r.Intn(4) != 0 {
+		b.KeepAlive = time.Duration(150+r.Intn(250)) * time.Millisecond
+	}
+	b.FeedProb = []float64{1, 0.5, 0.1, 0.02}[r.Intn(4)]
+	b.Late = make([]int, B)
+	if !b.Hold && r.Intn(2) == 0 {
+		// second wave: some queries arrive only after k queries of the burst have been seen executing
+		for i := range b.Late {
+			if r.Intn(2) == 0 {
+				b.Late[i] = 1 + r.Intn(L+1)
+			}
+		}
+	}
+	return b
+}
+
+// item is one query of a burst as the monitor sees it.
+type item struct {
+	burst   int
+	idx     int
+	started bool
+	kind    qkind
+	cancel  context.CancelFunc
+	done    chan struct{}
+	res     *results.Result
+	err     error
+	pmsg    string
+
+	parked    bool // observed executing (FIFO has a reader / Querier entered)
+	fed       bool // monitor has released it
+	cancelled bool
+	returned  bool
+}
+
+// target abstracts the two runners for the monitor.
+type target interface {
+	name() string
+	// start launches query it.idx of kind it.kind with the given keepalive; it must close it.done when Run returned.
+	start(it *item, keepAlive time.Duration)
+	// probe reports whether query it has been observed executing (parked behind the semaphore).
+	probe(it *item) bool
+	// feed lets the parked query continue.
+	feed(it *item)
+	// checkFed validates the result of a fed (not cancelled) query; "" = fine.
+	checkFed(it *item) string
+	semLen() int
+	// cleanup releases whatever is still parked in the harness after a burst (stale entries of queries that returned early)
+	cleanup()
+}
+
+// runBurst drives one burst to quiescence and checks all invariants. It returns false if the series
+// cannot continue (violation found or a query is stuck).
+func runBurst(c *recorder, r *rand.Rand, t target, L int, b burstSpec, burstNo int) bool {
+	where := fmt.Sprintf("%s L=%d burst#%d %s", t.name(), L, burstNo, b.describe())
+	c.Note("%s", where)
+	items := make([]*item, len(b.Kinds))
+	for i, k := range b.Kinds {
+		items[i] = &item{burst: burstNo, idx: i, kind: k, done: make(chan struct{})}
+	}
+	defer t.cleanup()
+	launch := func(it *item) {
+		it.started = true
+		t.start(it, b.KeepAlive)
+		if it.kind == kCancelEarly {
+			it.cancel()
+			c.Count("cancelled_early", 1)
+		}
+	}
+	// launch concurrently, in seeded order (late arrivals are launched by the monitor loop)
+	for _, i := range r.Perm(len(items)) {
+		if i >= len(b.Late) || b.Late[i] == 0 {
+			launch(items[i])
+		}
+	}
+	everParked := 0
+	K := b.parkable()
+	expectAdmit := K
+	if L < expectAdmit {
+		expectAdmit = L
+	}
+	holdChecked := false
+	maxParked := 0
+	violated := false
+	viol := func(sig, format string, args ...any) {
+		violated = true
+		c.Violatef(sig+"|"+t.name(), "%s: %s", where, fmt.Sprintf(format, args...))
+	}
+
+	observe := func() (parkedUnfed, returned int) {
+		for _, it := range items {
+			if !it.returned {
+				select {
+				case <-it.done:
+					it.returned = true
+				default:
+				}
+			}
+			if it.started && !it.returned && !it.parked && t.probe(it) {
+				it.parked = true
+				everParked++
+				c.Count("parked_observed", 1)
+			}
+		}
+		// late arrivals: after the scripted number of queries has been seen executing, or - if that can no
+		// longer happen - once every started query is parked or has returned
+		settled := true
+		for _, it := range items {
+			if it.started && !it.returned && !(it.parked && !it.fed) {
+				settled = false
+			}
+		}
+		for i, it := range items {
+			if !it.started && i < len(b.Late) && (everParked >= b.Late[i] || settled) {
+				launch(it)
+				c.Count("late_arrivals", 1)
+			}
+		}
+		for _, it := range items {
+			if !it.started {
+				continue
+			}
+			if it.returned {
+				returned++
+			} else if it.parked && !it.fed {
+				parkedUnfed++
+			}
+		}
+		return
+	}
+	release := func(it *item) {
+		if it.kind == kCancel {
+			it.cancel()
+			it.cancelled = true
+			c.Count("cancelled_while_parked", 1)
+		}
+		it.fed = true
+		t.feed(it)
+	}
+
+	for round := 0; ; round++ {
+		pu, ret := observe()
+		if pu > maxParked {
+			maxParked = pu
+		}
+		// sound invariants (a parked and unfed query is inside Run behind the semaphore)
+		if pu > L {
+			viol("limit_exceeded", "%d queries are executing at once (parked behind the semaphore, not yet fed), limit is %d", pu, L)
+		}
+		// every parked and unfed query holds its slot from before it parked until after it is fed
+		if sl := t.semLen(); sl < pu {
+			viol("slot_released_while_executing", "%d queries are executing but the semaphore holds only %d slots", pu, sl)
+		}
+		if violated {
+			break
+		}
+		if ret == len(items) {
+			break
+		}
+		allSettled := pu+ret == len(items) // everything either parked(unfed) or returned; fed ones still running are neither
+		if allSettled {
+			// quiescent: nothing can change until the monitor feeds a query
+			c.Count("quiescent_checks", 1)
+			if s := t.semLen(); s != pu {
+				viol("slot_leak_or_loss", "quiescent state with %d executing queries and all others returned, but the semaphore holds %d slots", pu, s)
+				break
+			}
+			if b.Hold && !holdChecked {
+				holdChecked = true
+				if pu == L {
+					c.Count("limit_reached", 1)
+				}
+				if pu < expectAdmit && b.pure() {
+					// a parkable query was rejected although a slot is free and nobody could have held it
+					// transiently: confirm with a probe query (no wall-clock verdict on a single observation)
+					c.Count("under_admission_observed", 1)
+					probe := &item{burst: burstNo, idx: len(items), kind: kPark, done: make(chan struct{})}
+					items = append(items, probe)
+					launch(probe)
+					for !probe.parked && !probe.returned {
+						time.Sleep(300 * time.Microsecond)
+						observe()
+					}
+					if probe.returned {
+						viol("under_admission", "only %d of %d parkable queries were admitted with limit %d, the others were rejected; a further query was rejected as well while the semaphore held %d of %d slots", pu, K, L, t.semLen(), L)
+						break
+					}
+					continue
+				}
+			}
+			// release one parked query (seeded choice)
+			var cand []*item
+			for _, it := range items {
+				if it.parked && !it.fed && !it.returned {
+					cand = append(cand, it)
+				}
+			}
+			release(cand[r.Intn(len(cand))])
+			continue
+		}
+		if !b.Hold {
+			for _, it := range items {
+				if it.parked && !it.fed && !it.returned && r.Float64() < b.FeedProb {
+					release(it)
+				}
+			}
+		}
+		if os.Getenv("C31_DEBUG") != "" && round%3000 == 0 {
+			var st []string
+			for _, it := range items {
+				st = append(st, fmt.Sprintf("%d:%s p=%v f=%v r=%v", it.idx, it.kind, it.parked, it.fed, it.returned))
+			}
+			fmt.Fprintf(os.Stderr, "DEBUG %s round %d pu=%d ret=%d sem=%d: %s\n", where, round, pu, ret, t.semLen(), strings.Join(st, " | "))
+		}
+		time.Sleep(300 * time.Microsecond)
+	}
+	if violated {
+		// the verdict is in; unblock everything and give the queries a bounded time to end so that the
+		// scratch database is not removed underneath a running query
+		for _, it := range items {
+			if !it.started {
+				continue
+			}
+			it.cancel()
+		}
+		deadline := time.Now().Add(15 * time.Second)
+		for time.Now().Before(deadline) {
+			pu, ret := observe()
+			_ = pu
+			for _, it := range items {
+				if it.parked && !it.fed {
+					it.fed = true
+					t.feed(it)
+				}
+			}
+			started := 0
+			for _, it := range items {
+				if it.started {
+					started++
+				}
+			}
+			if ret == started {
+				break
+			}
+			time.Sleep(time.Millisecond)
+		}
+		return false
+	}
+
+	// all returned: final accounting
+	if s := t.semLen(); s != 0 {
+		viol("slot_leak", "all %d queries of the burst have returned but the semaphore still holds %d slots", len(items), s)
+	}
+	rejected := 0
+	for _, it := range items {
+		desc := fmt.Sprintf("query %d (%s)", it.idx, it.kind)
+		if it.pmsg != "" {
+			viol("panic", "%s panicked: %s", desc, it.pmsg)
+			continue
+		}
+		switch it.kind {
+		case kPark, kCancel:
+			if !it.parked {
+				// never admitted: must have been answered with 'too many requests'
+				rejected++
+				if it.err != nil || it.res == nil || it.res.Status.Code != types.StatusTooManyRequests {
+					st := "<nil result>"
+					if it.res != nil {
+						st = fmt.Sprintf("status %q %q", it.res.Status.Code, it.res.Status.Message)
+					}
+					viol("rejected_without_too_many_requests", "%s was not admitted (never executed) but was answered with %s, error %v", desc, st, it.err)
+				} else {
+					c.Count("rejected_too_many_requests", 1)
+				}
+				continue
+			}
+			if it.res != nil && it.res.Status.Code == types.StatusTooManyRequests {
+				viol("executed_but_rejected", "%s executed (was parked behind the semaphore) and was answered with 'too many requests'", desc)
+				continue
+			}
+			if it.kind == kPark {
+				if msg := t.checkFed(it); msg != "" {
+					viol("fed_result", "%s: %s", desc, msg)
+				} else {
+					c.Count("fed_results_correct", 1)
+				}
+			}
+		case kCancelEarly:
+			// any answer is fine (rejected, error, empty or full result); it only must have come back
+			if it.res != nil && it.res.Status.Code == types.StatusTooManyRequests {
+				if it.parked {
+					viol("executed_but_rejected", "%s executed (was parked behind the semaphore) and was answered with 'too many requests'", desc)
+				} else {
+					c.Count("rejected_too_many_requests", 1)
+				}
+			}
+		case kInvalid:
+			if it.err == nil {
+				viol("invalid_accepted", "%s returned no error (result %+v)", desc, it.res)
+			}
+			c.Count("failed_before_admission", 1)
+		case kFailAfterA, kFailAfterB:
+			if it.res != nil && it.res.Status.Code == types.StatusTooManyRequests {
+				rejected++
+				c.Count("rejected_too_many_requests", 1)
+			} else if it.err == nil {
+				viol("failing_query_succeeded", "%s returned no error (result %+v)", desc, it.res)
+			} else {
+				c.Count("failed_after_admission", 1)
+			}
+		}
+	}
+	if b.Hold && maxParked < expectAdmit && b.pure() && !violated {
+		c.Count("under_admission_transient", 1)
+	}
+	c.Count("bursts_"+t.name(), 1)
+	if b.Hold {
+		c.Count("bursts_hold", 1)
+	} else {
+		c.Count("bursts_flow", 1)
+	}
+	if K > L {
+		c.Count("bursts_nontrivial", 1)
+		c.Nontrivial(fmt.Sprintf("%s|%d|%s", t.name(), L, b.describe()))
+	}
+	c.Count("queries", len(items))
+	return !violated
+}
+
+// ---------------------------------------------------------------------------------------------
+// engine target
+
+type engineTarget struct {
+	dbPath string
+	runner *engine.QueryRunner
+	sem    chan struct{}
+	ts     int64
+	flows  []int            // number of flows stored per interface
+	fifo   []string         // FIFO path per parkable interface
+	data   [][]byte         // original column bytes
+	w      map[int]*os.File // writer ends of parked queries
+	mu     sync.Mutex
+}
+
+func (t *engineTarget) name() string { return "engine" }
+func (t *engineTarget) semLen() int  { return len(t.sem) }
+
+func ifaceName(i int) string { return fmt.Sprintf("q%02d", i) }
+
+// newEngineTarget writes a DB with n parkable interfaces (bytes_rcvd column replaced by a FIFO) and
+// one interface with an unparsable year directory.
+func newEngineTarget(c *fw.Case, r *rand.Rand, n, L int) (*engineTarget, error) {
+	t := &engineTarget{dbPath: filepath.Join(c.Tmp, "db"), sem: make(chan struct{}, L), w: map[int]*os.File{}}
+	t.ts = int64(gen.MinTS) + 86400*int64(1+r.Intn(9000)) + 300*int64(1+r.Intn(200))
+	enc := []encoders.Type{encoders.EncoderTypeLZ4, encoders.EncoderTypeNull}[r.Intn(2)]
+	for i := 0; i < n; i++ {
+		var b gen.Block
+		b.TS = t.ts
+		seen := map[string]bool{}
+		for len(b.Flows) < 1+i%5 {
+			f := gen.RandFlow(r, gen.FlowOpts{V6Prob: 0.3})
+			if seen[f.KeyString()] {
+				continue
+			}
+			seen[f.KeyString()] = true
+			b.Flows = append(b.Flows, f)
+		}
+		if err := gen.WriteBlock(t.dbPath, ifaceName(i), b, enc, 0); err != nil {
+			return nil, err
+		}
+		t.flows = append(t.flows, len(b.Flows))
+		var col string
+		_ = filepath.WalkDir(filepath.Join(t.dbPath, ifaceName(i)), func(p string, d fs.DirEntry, err error) error {
+			if err == nil && !d.IsDir() && d.Name() == "bytes_rcvd.gpf" {
+				col = p
+			}
+			return nil
+		})
+		if col == "" {
+			return nil, fmt.Errorf("no bytes_rcvd.gpf written for %s", ifaceName(i))
+		}
+		data, err := os.ReadFile(col)
+		if err != nil {
+			return nil, err
+		}
+		if len(data) == 0 || len(data) > 32<<10 {
+			return nil, fmt.Errorf("unexpected column size %d", len(data))
+		}
+		if err := os.Remove(col); err != nil {
+			return nil, err
+		}
+		if err := syscall.Mkfifo(col, 0o644); err != nil {
+			return nil, err
+		}
+		t.fifo = append(t.fifo, col)
+		t.data = append(t.data, data)
+	}
+	// interface with an unparsable year directory next to its data
+	b := gen.Block{TS: t.ts, Flows: []gen.Flow{gen.RandFlow(r, gen.FlowOpts{})}}
+	if err := gen.WriteBlock(t.dbPath, "badyear", b, enc, 0); err != nil {
+		return nil, err
+	}
+	if err := os.MkdirAll(filepath.Join(t.dbPath, "badyear", "20x1"), 0o755); err != nil {
+		return nil, err
+	}
+	eng.QuietLogs(nil)
+	t.runner = engine.NewQueryRunner(t.dbPath, engine.WithMaxConcurrent(t.sem))
+	return t, nil
+}
+
+func (t *engineTarget) start(it *item, keepAlive time.Duration) {
+	iface := ifaceName(it.idx)
+	qtype := "sip,dip,dport,proto"
+	switch it.kind {
+	case kInvalid:
+		qtype = "sip,nonsense"
+	case kFailAfterA:
+		iface = "badyear"
+	case kFailAfterB:
+		iface = "doesnotexist"
+	}
+	a := eng.Args(qtype, iface, "", t.ts-600, t.ts+600)
+	a.LowMem = true
+	a.KeepAlive = keepAlive
+	ctx, cancel := context.WithCancel(context.Background())
+	it.cancel = cancel
+	go func() {
+		defer close(it.done)
+		defer cancel()
+		defer func() {
+			if r := recover(); r != nil {
+				it.pmsg = fmt.Sprintf("%v\n%s", r, debug.Stack())
+			}
+		}()
+		it.res, it.err = t.runner.Run(ctx, a)
+	}()
+}
+
+func (t *engineTarget) cleanup() {
+	t.mu.Lock()
+	defer t.mu.Unlock()
+	for i, w := range t.w {
+		_ = w.Close()
+		delete(t.w, i)
+	}
+}
+
+func (t *engineTarget) probe(it *item) bool {
+	if it.kind != kPark && it.kind != kCancel && it.kind != kCancelEarly {
+		return false // these queries never touch a FIFO
+	}
+	fd, err := syscall.Open(t.fifo[it.idx], syscall.O_WRONLY|syscall.O_NONBLOCK|syscall.O_CLOEXEC, 0)
+	if err != nil {
+		return false // ENXIO: no reader
+	}
+	t.mu.Lock()
+	t.w[it.idx] = os.NewFile(uintptr(fd), t.fifo[it.idx])
+	t.mu.Unlock()
+	return true
+}
+
+func (t *engineTarget) feed(it *item) {
+	t.mu.Lock()
+	w := t.w[it.idx]
+	delete(t.w, it.idx)
+	t.mu.Unlock()
+	if w == nil {
+		return
+	}
+	_, _ = w.Write(t.data[it.idx])
+	_ = w.Close()
+}
+
+func (t *engineTarget) checkFed(it *item) string {
+	if it.err != nil || it.res == nil {
+		return fmt.Sprintf("admitted and fed query returned error %v (result %v)", it.err, it.res)
+	}
+	if it.res.Status.Code != types.StatusOK || len(it.res.Rows) != t.flows[it.idx] {
+		return fmt.Sprintf("admitted and fed query returned status %q with %d rows, interface holds %d flows", it.res.Status.Code, len(it.res.Rows), t.flows[it.idx])
+	}
+	return ""
+}
+
+// ---------------------------------------------------------------------------------------------
+// distributed target
+
+type distTarget struct {
+	runner *gqd.QueryRunner
+	sem    chan struct{}
+	mu     sync.Mutex
+	parked map[string]chan struct{} // host name -> release channel of the query parked in Query()
+}
+
+type failingResolver struct{}
+
+func (failingResolver) Resolve(context.Context, string) (hosts.Hosts, error) {
+	return nil, errors.New("resolver backend unavailable")
+}
+
+func (t *distTarget) name() string { return "distributed" }
+func (t *distTarget) semLen() int  { return len(t.sem) }
+
+func distHost(it *item) string { return fmt.Sprintf("b%dq%02d", it.burst, it.idx) }
+
+// Query implements distributed.Querier: it is called after admission; the query stays in
+// aggregateResults until the result channel is closed.
+func (t *distTarget) Query(_ context.Context, hostList hosts.Hosts, _ *query.Args) (<-chan *results.Result, <-chan struct{}) {
+	out := make(chan *results.Result, 1)
+	ka := make(chan struct{})
+	rel := make(chan struct{})
+	t.mu.Lock()
+	t.parked[hostList[0]] = rel
+	t.mu.Unlock()
+	go func() {
+		<-rel
+		res := results.New()
+		res.Hostname = hostList[0]
+		res.Summary.DataAvailable = true
+		res.Summary.Hits.Total = 1
+		res.Rows = results.Rows{{Labels: results.Labels{Iface: "eth0", Hostname: hostList[0]}, Counters: types.Counters{BytesRcvd: 40, PacketsRcvd: 1}}}
+		res.HostsStatuses[hostList[0]] = res.Status
+		out <- res
+		close(out)
+		close(ka)
+	}()
+	return out, ka
+}
+
+func newDistTarget(L int) *distTarget {
+	t := &distTarget{sem: make(chan struct{}, L), parked: map[string]chan struct{}{}}
+	rm := hosts.NewResolverMap()
+	rm.Set(stringresolver.Type, stringresolver.NewResolver(true))
+	rm.Set("failing", failingResolver{})
+	eng.QuietLogs(nil)
+	t.runner = gqd.NewQueryRunner(rm, t, gqd.WithMaxConcurrent(t.sem))
+	return t
+}
+
+func (t *distTarget) start(it *item, keepAlive time.Duration) {
+	base := int64(gen.MinTS) + 86400
+	a := eng.Args("sip,dip", "any", "", base, base+3600)
+	a.QueryHosts = distHost(it)
+	a.KeepAlive = keepAlive
+	switch it.kind {
+	case kInvalid:
+		if it.idx%2 == 0 {
+			a.QueryHosts = ""
+		} else {
+			a.Query = "sip,nonsense"
+		}
+	case kFailAfterA:
+		a.QueryHosts = types.AnySelector // the harness Querier cannot enumerate all hosts: error after admission
+	case kFailAfterB:
+		a.QueryHostsResolverType = "failing"
+	}
+	ctx, cancel := context.WithCancel(context.Background())
+	it.cancel = cancel
+	streaming := it.idx%3 == 1
+	go func() {
+		defer close(it.done)
+		defer cancel()
+		defer func() {
+			if r := recover(); r != nil {
+				it.pmsg = fmt.Sprintf("%v\n%s", r, debug.Stack())
+			}
+		}()
+		if streaming {
+			it.res, it.err = t.runner.RunStreaming(ctx, a, nil)
+		} else {
+			it.res, it.err = t.runner.Run(ctx, a)
+		}
+	}()
+}
+
+func (t *distTarget) cleanup() {
+	t.mu.Lock()
+	defer t.mu.Unlock()
+	for h, rel := range t.parked {
+		close(rel)
+		delete(t.parked, h)
+	}
+}
+
+func (t *distTarget) probe(it *item) bool {
+	t.mu.Lock()
+	defer t.mu.Unlock()
+	_, ok := t.parked[distHost(it)]
+	return ok
+}
+
+func (t *distTarget) feed(it *item) {
+	t.mu.Lock()
+	rel := t.parked[distHost(it)]
+	delete(t.parked, distHost(it))
+	t.mu.Unlock()
+	if rel != nil {
+		close(rel)
+	}
+}
+
+func (t *distTarget) checkFed(it *item) string {
+	if it.err != nil || it.res == nil {
+		return fmt.Sprintf("admitted and released query returned error %v (result %v)", it.err, it.res)
+	}
+	if it.res.Status.Code != types.StatusOK || len(it.res.Rows) != 1 {
+		return fmt.Sprintf("admitted and released query returned status %q with %d rows, its host delivered 1 row", it.res.Status.Code, len(it.res.Rows))
+	}
+	return ""
+}
+
+// ---------------------------------------------------------------------------------------------
+
+func run(c *fw.Case) {
+	r := c.Rng
+	L := []int{1, 2, 3, 5}[r.Intn(4)]
+	nb := 2 + r.Intn(2)
+	if c.Tier == "thorough" {
+		nb = 2 + r.Intn(3)
+	}
+	// pre-draw both series so that they are pure functions of the seed
+	var engB, distB []burstSpec
+	maxQ := 0
+	for i := 0; i < nb; i++ {
+		be, bd := genBurst(r, L, i == 0), genBurst(r, L, i == 0)
+		if i == nb-1 {
+			// the last burst of a series is a pure hold burst above the limit: it proves that every slot came back
+			be, bd = pureHold(r, L), pureHold(r, L)
+		}
+		engB, distB = append(engB, be), append(distB, bd)
+		if len(be.Kinds) > maxQ {
+			maxQ = len(be.Kinds)
+		}
+	}
+	et, err := newEngineTarget(c, r, maxQ+1, L) // +1: the under-admission probe query
+	if err != nil {
+		c.Inconclusive("building the FIFO database failed: %v", err)
+		return
+	}
+	dt := newDistTarget(L)
+	re, rd := rand.New(rand.NewSource(r.Int63())), rand.New(rand.NewSource(r.Int63()))
+
+	var wg sync.WaitGroup
+	rec := &recorder{c: c}
+	wg.Add(2)
+	go func() {
+		defer wg.Done()
+		for i, b := range engB {
+			if !runBurst(rec, re, et, L, b, i) {
+				return
+			}
+		}
+	}()
+	go func() {
+		defer wg.Done()
+		for i, b := range distB {
+			if !runBurst(rec, rd, dt, L, b, i) {
+				return
+			}
+		}
+	}()
+	wg.Wait()
+	var ds []string
+	for _, b := range engB {
+		ds = append(ds, "engine "+b.describe())
+	}
+	for _, b := range distB {
+		ds = append(ds, "distributed "+b.describe())
+	}
+	c.Sample(map[string]any{"limit": L, "bursts": ds})
+}
+
+func pureHold(r *rand.Rand, L int) burstSpec {
+	b := burstSpec{Hold: true, FeedProb: 1}
+	B := L + 1 + r.Intn(2*L)
+	for i := 0; i < B; i++ {
+		b.Kinds = append(b.Kinds, kPark)
+	}
+	if r.Intn(3) != 0 {
+		b.KeepAlive = time.Duration(150+r.Intn(250)) * time.Millisecond
+	}
+	return b
+}
+
+// recorder serialises access to the (not goroutine-safe) fw.Case from the two concurrent series.
+type recorder struct {
+	mu sync.Mutex
+	c  *fw.Case
+}
+
+func (r *recorder) Count(name string, n int) {
+	r.mu.Lock()
+	defer r.mu.Unlock()
+	r.c.Count(name, n)
+}
+
+func (r *recorder) Violatef(sig, format string, args ...any) {
+	r.mu.Lock()
+	defer r.mu.Unlock()
+	r.c.Violatef(sig, format, args...)
+}
+
+func (r *recorder) Note(format string, args ...any) {
+	r.mu.Lock()
+	defer r.mu.Unlock()
+	r.c.Note(format, args...)
+}
+
+func (r *recorder) Nontrivial(key string) {
+	r.mu.Lock()
+	defer r.mu.Unlock()
+	r.c.Nontrivial(key)
+}
